@@ -1545,34 +1545,68 @@ fn mixup_main(args: &[String]) {
         }
     }
     println!("STAT mixup static: name/type pairs={} candidates={}", pairs, cands.len());
-    // dynamic confirmation through the public API (operations of the tree harness, so that the scenario is a replayable script)
+    // second family: (stored type c1, destination type c2) of one name where c1 lists a sub-element c2 does not know at all,
+    // built with that sub-element and (if there is one) a sub-element both types know
+    type Scen = (String, ElementType, ElementType, ElementName, bool, ElementType, ElementType, Vec<(ElementName, bool)>, Option<AutosarVersion>);
+    let mut scens: Vec<Scen> = vec![];
+    let mut seen_key: HashSet<String> = HashSet::new();
+    for (kind, p1, c1, name, named1, p2, c2, sn, _st, snamed, t, _idx) in &cands {
+        if seen_key.insert(format!("A{:?}{:?}{}{:?}", c1, c2, sn.to_str(), kind)) {
+            scens.push((format!("mask-{}", kind), *p1, *c1, *name, *named1, *p2, *c2, vec![(*sn, *snamed)], Some(*t)));
+        }
+    }
+    let mut richer = 0usize;
+    for (_nm, l) in &by_name {
+        for (p1, c1, name, named1) in l {
+            for (p2, c2, _, _) in l {
+                if c1 == c2 || !seen_key.insert(format!("B{:?}{:?}", c1, c2)) {
+                    continue;
+                }
+                let subs = mx_subs_in(*c1, v);
+                let only: Vec<(ElementName, bool)> = subs.iter().filter(|(sn, _, _, _)| *sn != ElementName::ShortName && c2.find_sub_element(*sn, u32::MAX).is_none())
+                    .map(|(sn, _, _, nm)| (*sn, nm & v != 0)).take(2).collect();
+                if only.is_empty() {
+                    continue;
+                }
+                let both: Vec<(ElementName, bool)> = subs.iter().filter(|(sn, _, _, _)| *sn != ElementName::ShortName && c2.find_sub_element(*sn, v).is_some())
+                    .map(|(sn, _, _, nm)| (*sn, nm & v != 0)).take(2).collect();
+                let mut kids = only;
+                kids.extend(both);
+                richer += 1;
+                if richer <= 300 {
+                    scens.push(("richer".to_string(), *p1, *c1, *name, *named1, *p2, *c2, kids, None));
+                }
+            }
+        }
+    }
+    println!("STAT mixup static: richer-source pairs={} (first 300 built)", richer);
+    // dynamic: every scenario through the public API (operations of the tree harness, so that it is a replayable script), as a move
+    // and as a copy, followed by a battery on the attached element, its new parent, the model and the file
+    std::panic::set_hook(prev);
+    install_hook();
     let names = Names::load(&args[0]);
     let outdir = args.get(2).cloned().unwrap_or_else(|| ".".to_string());
     let mut shown = 0usize;
     let mut confirmed = 0usize;
     let mut tried = 0usize;
-    let mut seen_key: HashSet<String> = HashSet::new();
+    let mut calls = 0u64;
     let hn = |r: &str| -> Option<usize> { r.strip_prefix("R OK h").and_then(|x| x.parse::<usize>().ok()) };
-    for (kind, p1, c1, name, named1, p2, c2, sn, _st, snamed, t, idx) in &cands {
-        let key = format!("{:?}{:?}{}{:?}", c1, c2, sn.to_str(), kind);
-        if !seen_key.insert(key) {
-            continue;
-        }
-        if tried >= 400 {
+    for (fam, p1, c1, name, named1, p2, c2, kids, tver) in &scens {
+        if tried >= 900 {
             break;
         }
         let (Some(path1), Some(path2)) = (path_of(*p1), path_of(*p2)) else { continue };
         'how: for how in ["move", "copy"] {
             let mut ex = Exec::new(&names);
-            let mut ops: Vec<Op> = vec![];
+            let mut steps: Vec<Step> = vec![];
             let mut ctr = 0usize;
-            let push = |ex: &mut Exec, ops: &mut Vec<Op>, op: Op| -> String {
+            let push = |ex: &mut Exec, steps: &mut Vec<Step>, op: Op| -> String {
                 let r = ex.apply(&op);
-                ops.push(op);
+                steps.push(Step::O(op));
                 r
             };
-            push(&mut ex, &mut ops, Op::NewModel);
-            push(&mut ex, &mut ops, Op::CreateFile(0, b"f0.arxml".to_vec(), v));
+            push(&mut ex, &mut steps, Op::NewModel);
+            push(&mut ex, &mut steps, Op::CreateFile(0, b"f0.arxml".to_vec(), v));
             let mut ends = vec![];
             for path in [&path1, &path2] {
                 let mut cur = 0usize;
@@ -1583,9 +1617,9 @@ fn mixup_main(args: &[String]) {
                         None => {
                             let r = if *named {
                                 ctr += 1;
-                                push(&mut ex, &mut ops, Op::CreateNamed(cur, *n as u16, format!("n{}", ctr).into_bytes()))
+                                push(&mut ex, &mut steps, Op::CreateNamed(cur, *n as u16, format!("n{}", ctr).into_bytes()))
                             } else {
-                                push(&mut ex, &mut ops, Op::CreateSub(cur, *n as u16))
+                                push(&mut ex, &mut steps, Op::CreateSub(cur, *n as u16))
                             };
                             let Some(c) = hn(&r) else { continue 'how };
                             c
@@ -1594,27 +1628,33 @@ fn mixup_main(args: &[String]) {
                 }
                 ends.push(cur);
                 if ends.len() == 1 {
-                    // the element with the stored type c1 and its child
+                    // the element with the stored type c1 and its children
                     if ex.handles[cur].element_type() != *p1 {
                         continue 'how;
                     }
                     let r = if *named1 {
                         ctr += 1;
-                        push(&mut ex, &mut ops, Op::CreateNamed(cur, *name as u16, format!("n{}", ctr).into_bytes()))
+                        push(&mut ex, &mut steps, Op::CreateNamed(cur, *name as u16, format!("n{}", ctr).into_bytes()))
                     } else {
-                        push(&mut ex, &mut ops, Op::CreateSub(cur, *name as u16))
+                        push(&mut ex, &mut steps, Op::CreateSub(cur, *name as u16))
                     };
                     let Some(x) = hn(&r) else { continue 'how };
                     if ex.handles[x].element_type() != *c1 {
                         continue 'how;
                     }
-                    let r = if *snamed {
-                        ctr += 1;
-                        push(&mut ex, &mut ops, Op::CreateNamed(x, *sn as u16, format!("n{}", ctr).into_bytes()))
-                    } else {
-                        push(&mut ex, &mut ops, Op::CreateSub(x, *sn as u16))
-                    };
-                    if hn(&r).is_none() {
+                    let mut made = 0;
+                    for (sn, snamed) in kids {
+                        let r = if *snamed {
+                            ctr += 1;
+                            push(&mut ex, &mut steps, Op::CreateNamed(x, *sn as u16, format!("n{}", ctr).into_bytes()))
+                        } else {
+                            push(&mut ex, &mut steps, Op::CreateSub(x, *sn as u16))
+                        };
+                        if hn(&r).is_some() {
+                            made += 1;
+                        }
+                    }
+                    if made == 0 {
                         continue 'how;
                     }
                     ends.push(x);
@@ -1624,33 +1664,51 @@ fn mixup_main(args: &[String]) {
             if ex.handles[h2].element_type() != *p2 || h2 == h1 {
                 continue;
             }
-            let r = push(&mut ex, &mut ops, if how == "move" { Op::Move(h2, x) } else { Op::Copy(h2, x) });
-            if !r.starts_with("R OK") {
-                continue;
-            }
+            let r = push(&mut ex, &mut steps, if how == "move" { Op::Move(h2, x) } else { Op::Copy(h2, x) });
+            let Some(y) = hn(&r) else { continue };
             tried += 1;
-            let f2 = ex.files[0].clone();
-            let tt = *t;
-            let res = std::panic::catch_unwind(std::panic::AssertUnwindSafe(move || f2.check_version_compatibility(tt)));
-            let outcome = if res.is_err() { "PANIC" } else { "ok" };
-            if res.is_err() {
-                confirmed += 1;
-                if confirmed <= 2 {
-                    let mut lines: Vec<String> = ops.iter().map(|o| o.line()).collect();
-                    lines.push(Call::QFile(0).line());
-                    let pth = write_script(&outdir, &format!("mixup-{}", how), &lines);
-                    println!("MIXUP-SCRIPT {}", pth);
+            // the battery: every call must return
+            let text = guard(|| ex.files[0].serialize()).ok().and_then(|r| r.ok()).unwrap_or_default();
+            let mut battery: Vec<Step> = vec![
+                Step::O(Op::Sort(y)), Step::O(Op::Sort(h2)), Step::O(Op::SortModel(0)), Step::O(Op::SerializeFile(0)),
+                Step::C(Call::QElem(y)), Step::C(Call::QModel(0)), Step::C(Call::QFile(0)), Step::O(Op::Duplicate(0)),
+            ];
+            if !text.is_empty() {
+                battery.push(Step::O(Op::Load(0, text.into_bytes(), b"self.arxml".to_vec(), false)));
+                battery.push(Step::O(Op::SortModel(0)));
+                battery.push(Step::C(Call::QModel(0)));
+            }
+            let mut bad: Option<(String, String, String)> = None;
+            for st in battery {
+                let out = exec_step(&mut ex, &st);
+                calls += 1;
+                steps.push(st.clone());
+                if let Out::Panic { site, method } = out {
+                    bad = Some((site, st.opname(), method));
+                    break;
                 }
             }
-            if shown < limit && (res.is_err() || shown < 3) {
+            if let Some((site, op, method)) = &bad {
+                confirmed += 1;
+                let lines: Vec<String> = steps.iter().map(|o| o.line()).collect();
+                let pth = write_script(&outdir, &format!("mixup-{}-{}", how, confirmed), &lines);
+                if confirmed <= 6 {
+                    println!("MIXUP-SCRIPT {}", pth);
+                }
+                println!("FAIL C12 kind=panic site={} op={} method={} case=mixup-{} script={}", site, op, method.replace(' ', "_"), fam, pth);
+            }
+            if shown < limit && (bad.is_some() || shown < 2) {
                 shown += 1;
-                println!("MIXUP {} static={} how={} name={} stored={:?} recalculated={:?} child={} target={:?} indices={:?} p1={} p2={}",
-                    outcome, kind, how, name.to_str(), c1, c2, sn.to_str(), t, idx,
+                println!("MIXUP {} family={} how={} name={} stored={:?} destination={:?} kids={} target={:?} p1={} p2={}",
+                    if bad.is_some() { "PANIC" } else { "ok" }, fam, how, name.to_str(), c1, c2,
+                    kids.iter().map(|(n, _)| n.to_str()).collect::<Vec<_>>().join(","), tver,
                     path1.iter().map(|(n, _)| n.to_str()).collect::<Vec<_>>().join("/"),
                     path2.iter().map(|(n, _)| n.to_str()).collect::<Vec<_>>().join("/"));
             }
         }
     }
+    println!("STAT mixup calls={}", calls);
+    let prev = std::panic::take_hook();
     std::panic::set_hook(prev);
     println!("STAT mixup dynamic: scenarios tried={} panics confirmed={}", tried, confirmed);
 }
